@@ -316,6 +316,11 @@ func (e *Engine) evalIdent(env *Env, name string) Value {
 	case "MaxUint64":
 		return IntV{smt.BigC(new(big.Int).Sub(pow2(64), big.NewInt(1)))}
 	}
+	if env.pkg != nil {
+		if p, ok := e.Preds[env.pkg.Pkg.Path()+"."+name]; ok {
+			return FuncRefV{Name: name, Pred: p}
+		}
+	}
 	if p, ok := e.Preds[name]; ok {
 		return FuncRefV{Name: name, Pred: p}
 	}
@@ -646,6 +651,13 @@ func (e *Engine) evalCall(env *Env, n *cexpr.Node) Value {
 		for i, p := range fr.Pred.Params {
 			c.vars[p] = e.eval(env, args[i])
 		}
+		if fr.Pred.Pkg != "" {
+			if sp := e.SSAPkgs[fr.Pred.Pkg]; sp != nil {
+				c.pkg = sp // a predicate's free names are resolved in the package that defines it
+			}
+		}
+		// the predicate body sees only its parameters (and package-level names), not the caller's locals
+		c.frame = nil
 		return e.eval(c, fr.Pred.Body)
 	}
 	if fr.Fn != nil && fr.Name == "unfold" {
